@@ -10,7 +10,8 @@ literals; the definitions Coq sees (compared as terms by the kernel) equal those
 of the same package printed without comments and logging calls, under every
 combination of -typecheck, -source-comments, -skip-interfaces, and every variant
 compiles; MiniGo programs: the term Coq parses from the emitted text equals the
-translator model's (operator nesting, blocks, conditionals)."""
+translator model's (operator nesting, blocks, conditionals, loops, the extent
+of bindings made in nested blocks)."""
 import vlib
 from checks import semlib
 
@@ -19,7 +20,7 @@ def run(ctx):
     failures = vlib.proof_stage(ctx, "theories/Props/C05.v", ["theories/Oblig/O05.v"])
     quick = ctx.tier == "quick"
     found = False
-    plan = [("lexical", 24), ("minigo", 10)] if quick else [("lexical", 600), ("minigo", 300), ("default", 200)]
+    plan = [("lexical", 24), ("minigo", 10), ("minigol", 16)] if quick else [("lexical", 600), ("minigo", 300), ("minigol", 300), ("default", 200)]
     evals = calls = 0
     samples = []
     for i, (profile, n) in enumerate(plan):
@@ -47,7 +48,7 @@ def run(ctx):
                 "logging calls with those texts, and string literals from 15 texts (delimiters, backslash, tab, non-ASCII, Coq keywords); goose is run on it plainly and with "
                 "-typecheck, -source-comments, -skip-interfaces and all three, and on the same package printed without comments and logging calls; every output must compile and "
                 "every Definition of the plain output must be equal as a Coq term (Goal a = b. reflexivity.) to the one of each other output; calls also compared with Go. "
-                "minigo: syntactic equality of the parsed output with the translator model",
+                "minigo / minigol: syntactic equality of the parsed output with the translator model (operator nesting; blocks, loops and which statements a nested block's bindings extend over)",
         "samples": samples, "calls_compared": calls,
     })
     ctx.assumptions += ["Coq's lexer treats comments and strings as Tr/Lex.v says (checked indirectly: coqc parses every generated output)"]
